@@ -54,12 +54,63 @@ def check(index, ctx):
              "(directly or through one vmap); the VJP callable contains exactly one torch.autograd.grad call")
     ctx.rule("R3", "vmap guard: every vmap call is reachable only on the negative edge of a test 'rows of this block == 1', where the tested value is shape[0] of a cotangent block; "
              "on the positive edge the VJP callable is applied directly")
+    ctx.rule("R4", "same update for every chunk size: the abstract description of what reaches the aggregator and of every .grad write (target, dtype of the stored value, "
+             "accumulate/assign, freshness, column layout) on the paths of the chunked call is one that the un-chunked call of the same variant also produces; a construct of the "
+             "chunked runs that the engine cannot interpret leaves the rule undecided")
     P, rs = _pipe.runs(index)
+    update_rule(ctx, rs)
     n_part = partition_rule(ctx, P, rs, "R1")
     ctx.floor("row-block partitions analysed", n_part, 3)
     sweeps_and_guard(index, ctx)
     _pipe.common_evidence(ctx, index)
     ctx.assumptions.append("value-independence from k reduces to R1 plus the vstack of the blocks in block order (C01 R2); vmap ≡ sequential numerically is not decided")
+
+
+def update_signature(res):
+    sig = []
+    for e in res.events:
+        if e["kind"] == "aggregator_call":
+            m = e.get("matrix") or ""
+            dt = m.split("dtype=")[1].split(" ")[0].rstrip(")>,") if "dtype=" in m else ""
+            sig.append(("aggregate", e.get("column_layout"), dt))
+        elif e["kind"] == "grad_write":
+            sig.append(("write", tuple(e.get("target") or ()), e.get("aug"), e.get("value_dtype"), e.get("target_dtype"), e.get("fresh"), e.get("value_is_none")))
+    # consecutive duplicates come from loop bodies analysed to a fixpoint
+    out = []
+    for x in sig:
+        if not out or out[-1] != x:
+            out.append(x)
+    return tuple(out)
+
+
+def update_rule(ctx, rs):
+    by = {}
+    for run in rs:
+        v = dict(run.variant)
+        chunk = v.pop("chunk")
+        by.setdefault((run.entry, tuple(sorted(v.items()))), {})[chunk] = run
+    n = 0
+    for key, pair in by.items():
+        if True not in pair or False not in pair:
+            continue
+        chunked, plain = pair[True], pair[False]
+        ref = {update_signature(r) for r in _pipe.main_paths(plain)}
+        for r in _pipe.main_paths(chunked):
+            blk = _pipe.blocking(r)
+            name = f"{chunked.label} [{'; '.join(d for d in r.trace.decisions if 'chunk' in d) or 'any'}]"
+            if blk:
+                ctx.undecided("R4", name, f"construct outside the analysed subset: {blk[0]['loc']} `{blk[0]['text']}`", blk[0]["loc"])
+                continue
+            sg = update_signature(r)
+            n += 1
+            if sg in ref:
+                ctx.ok("R4", name, f"update signature shared with the un-chunked call ({len(sg)} events)", "", True)
+            else:
+                diff = [x for x in sg if all(x not in t for t in ref)]
+                w = next((e for e in r.events if e["kind"] in ("grad_write", "aggregator_call")), None)
+                ctx.violated("R4", name, f"this chunked path aggregates/stores {diff[:2] or sg[:2]}, which no path of {plain.label} does: the update depends on the chunk size",
+                             w["loc"] if w else "")
+    ctx.floor("chunked paths compared with the un-chunked call", n, 4)
 
 
 def partition_rule(ctx, P, rs, RULE):
